@@ -312,9 +312,30 @@ func damage(r *prng.Rand, out *render.Out, text bool) ([]byte, []string) {
 					conts = append(conts, s)
 				}
 			}
+			// ... and among those, containers that are the last child of their parent: raising their length by the size of
+			// their own length field is the smallest possible overrun of the parent
+			var lastKids []render.Site
+			for _, c1 := range out.Sites {
+				if c1.Kind != "container" || c1.Depth == 0 {
+					continue
+				}
+				for _, c2 := range out.Sites {
+					if c2.Kind == "container" && c2.Depth == c1.Depth-1 && c2.Off < c1.Off && c2.Off+c2.Len == c1.Off+c1.Len {
+						for _, s := range conts {
+							if (s.Kind == "tag" && s.Off == c1.Off) || (s.Kind == "len" && s.Off == c1.Off+1) {
+								lastKids = append(lastKids, s)
+							}
+						}
+						break
+					}
+				}
+			}
 			s := cands[r.Intn(len(cands))]
 			if len(conts) > 0 && r.Chance(2, 3) {
 				s = conts[r.Intn(len(conts))]
+				if len(lastKids) > 0 && r.Bool() {
+					s = lastKids[r.Intn(len(lastKids))]
+				}
 			}
 			delta := r.Range(1, 3)
 			if r.Chance(1, 3) {
